@@ -36,4 +36,29 @@ CHECKS = {
             "an application or target that stops writing half-closes; an abortive close with answers in flight belongs to C15",
         ],
     },
+    "C04": {
+        "level": "fault_enumeration",
+        "parts": [{"gen": "C04", "quick": 144, "thorough": 1440}],
+        "exhaustive_claim": False,
+        "rule": "one plan = one (protocol, cipher, single/multi-user) cell x direction (client->server or server->client) x segmentation family; the real client and server run with a "
+                "man-in-the-middle node on their link that forwards the byte stream in exact pieces and lets the receiver go quiet after each piece (no EOF at the end). Families: "
+                "every single cut point 1..n-1 of the observed stream (exhaustive per plan; thorough adds 1500 sampled pairs), byte-at-a-time, and seeded multi-cut segmentations. "
+                "Each segmentation is one evaluation; non-trivial = the stream had the same length as in the unsegmented baseline, so the cut fell where intended; distinct = distinct (plan, cut set, poll order) hashes. "
+                "Oracle: same target address, same plaintext both ways, no error, everything delivered at quiescence. Cuts inside the Shadowsocks-2022 first flight (salt + fixed header) are exempt from 'no error' only.",
+        "real": REAL_SYSTEM, "stub": STUB_SYSTEM + ["man-in-the-middle segmenter on the client<->server link (harness)"],
+        "assumptions": ASSUME_SYSTEM + ["plain tcp carrier only in this check: TLS records and WebSocket frames are re-segmented by C01's network knobs, message-level re-chunking of WebSocket payloads is not enumerated here"],
+    },
+    "C05": {
+        "level": "fault_enumeration",
+        "parts": [{"gen": "C05", "quick": 66, "thorough": 660}],
+        "rule": "one plan = one encrypted (protocol, cipher, single/multi-user) cell x direction; the man-in-the-middle node mutates the real byte stream between the real client and server: "
+                "one bit flipped in every byte position 0..n-1 (exhaustive over positions, bit drawn), truncation+close at every third offset, seeded deletions, duplications, insertions and multi-byte edits, "
+                "and full reflection of a sender's stream (Shadowsocks 2022, VMess). Each mutation is one evaluation. Oracle: everything released to the far side is a prefix of what was written; "
+                "for Shadowsocks additionally no more is released than an untampered stream cut at the first tampered byte releases (release curve measured by a byte-at-a-time reference run); "
+                "a reflected stream releases nothing; the opposite direction stays a prefix too.",
+        "real": REAL_SYSTEM, "stub": STUB_SYSTEM + ["man-in-the-middle mutator on the client<->server link (harness)"],
+        "assumptions": ASSUME_SYSTEM + ["plain tcp carrier (under tls/wss the outer TLS layer, third-party code, rejects every mutation first)",
+                                        "VMess leaves chunk padding unauthenticated by design, so VMess is held to the prefix oracle only",
+                                        "Trojan has no encryption of its own and is outside this property; datagram tampering is covered by the UDP checks"],
+    },
 }
